@@ -18,10 +18,16 @@
 //! Naturals in op lines are mapped order-preservingly: exchange label -> `EXS[label]` (ascending
 //! `ExchangeId`s), name `n` -> fixed-width string, spec decimals / expiries -> integers.
 use barter::{
-    engine::{clock::EngineClock, execution_tx::ExecutionTxMap},
+    engine::{
+        Engine,
+        action::send_requests::SendRequests,
+        clock::{EngineClock, LiveClock},
+        error::{EngineError, UnrecoverableEngineError},
+        execution_tx::MultiExchangeTxMap,
+    },
     error::BarterError,
     execution::{
-        AccountStreamEvent, Execution, builder::ExecutionBuilder, request::ExecutionRequest,
+        AccountStreamEvent, Execution, builder::ExecutionBuilder,
     },
 };
 use barter_execution::{
@@ -62,7 +68,6 @@ use barter_instrument::{
         },
     },
 };
-use barter_integration::channel::Tx;
 use chrono::{DateTime, TimeZone, Utc};
 use rust_decimal::Decimal;
 use std::{
@@ -618,7 +623,7 @@ fn op_build(ii: &IndexedInstruments, adds: &[Add], lines: &mut Vec<String>) -> O
     }
     snaps.sort();
     for (x, bals) in snaps {
-        let mut l = format!("snap {x}");
+        let mut l = format!("snap{x}");
         for (a, amt) in bals {
             l.push_str(&format!(" {a}:{amt}"));
         }
@@ -643,7 +648,7 @@ fn op_order(live: &mut Live, op: &[String], lines: &mut Vec<String>) {
     let (price, qty) = (parse_dec(t.s()), parse_dec(t.s()));
     t.done();
     live.next_cid += 1;
-    let request = ExecutionRequest::Open(OrderEvent {
+    let request = OrderEvent {
         key: OrderKey {
             exchange: ExchangeIndex(x),
             instrument: InstrumentIndex(i),
@@ -657,18 +662,28 @@ fn op_order(live: &mut Live, op: &[String], lines: &mut Vec<String>) {
             kind,
             time_in_force: TimeInForce::ImmediateOrCancel,
         },
-    });
+    };
     live.log.lock().unwrap().clear();
-    let sent = match live.exec.execution_txs.find(&ExchangeIndex(x)) {
-        Err(_) => {
+    // the REAL `Engine::send_request` (engine/action/send_requests.rs) of an engine that owns the
+    // transmitter table the builder made; clock, state, strategy and risk manager play no part
+    let txs = std::mem::replace(
+        &mut live.exec.execution_txs,
+        MultiExchangeTxMap::from_iter(std::iter::empty()),
+    );
+    let engine = Engine::new(LiveClock, (), txs, (), ());
+    let sent = engine.send_request(&request);
+    live.exec.execution_txs = engine.execution_txs;
+    match sent {
+        Ok(()) => {}
+        Err(EngineError::Unrecoverable(UnrecoverableEngineError::IndexError(_))) => {
             lines.push("r err".into());
             return;
         }
-        Ok(tx) => tx.send(request).is_ok(),
-    };
-    if !sent {
-        lines.push("r closed".into());
-        return;
+        Err(EngineError::Unrecoverable(UnrecoverableEngineError::ExecutionChannelTerminated(_))) => {
+            lines.push("r closed".into());
+            return;
+        }
+        Err(other) => panic!("unexpected send_request error {other:?}"),
     }
     live.rt.block_on(async {
         tokio::time::sleep(std::time::Duration::from_secs(3)).await;
